@@ -39,6 +39,13 @@ Checks (statement of C08, nothing more)
                r'.eval(K) == tree(K | S) for every K (as a function of all four genes)            key "remove-genes"
 
 A raised exception in any step is a failure of that step's key.
+
+Witness protocol: every failure carries "witness", the exact failing input (`rule('<text>')`, `pair('<rule>', '<rule>')`,
+`remove('<rule>', without=<genes>, remove_reactions=<bool>, as_objects=<bool>)`).  The class
+`remove-genes:symbol-operators` (decided on the input: the rule text contains & or |) is pinned by the FIXED, seed-independent
+list `fixed_removal_cases()` (every tree with <= 3 leaves over a, b, c typed with symbol operators in four ways, every
+non-empty subset, both remove_reactions settings), every failing member of which is reported; members of the class met in the
+seeded part carry the witness "random:remove-genes:symbol-operators".  One failure is kept per distinct witness.
 """
 import itertools
 import keyword
@@ -49,6 +56,9 @@ import time
 import warnings
 
 KNOWN_KEYS = set()
+# classes decided on the INPUT (see NOTES_C08.md); in the seeded part their members carry the witness "random:<class>"
+INPUT_CLASS_KEYS = {"remove-genes:symbol-operators"}
+SEEDED_CAP = 2000      # distinct witnesses kept per key from the seeded part (the fixed part is never capped)
 
 # ----------------------------------------------------------------------------------------------------------------------
 # identifier pool
@@ -382,7 +392,7 @@ def _unit_rules(args):
         e, t, a, f = check_instance(tree, ids, sps, with_reaction, full_eq)
         evals, texts, asts = evals + e, texts + t, asts + a
         for key, msg, text in f:
-            fails.append({"key": key, "failure": msg,
+            fails.append({"key": key, "witness": f"rule({text!r})", "failure": msg,
                           "replay": {"kind": "rule", "tree": tree_json(tree), "ids": ids, "text": text}})
         if sample is None:
             sample = {"tree": tree_json(tree), "ids": ids, "text": render(tree, ids, sps[len(sps) // 2])}
@@ -431,6 +441,7 @@ def _unit_pairs(args):
             equal += eq
             if f:
                 fails.append({"key": "eq-implies-equiv", "failure": f,
+                              "witness": f"pair({render(ts[i], ids, (0, 0, 1, 0))!r}, {render(ts[j], ids, (0, 0, 1, 0))!r})",
                               "replay": {"kind": "pair", "t1": tree_json(ts[i]), "t2": tree_json(ts[j]), "ids": ids, "n": n_genes}})
     return {"evals": evals, "equal": equal, "fails": fails}
 
@@ -455,6 +466,7 @@ def _unit_pairs4(args):
         equal += eq
         if f:
             fails.append({"key": "eq-implies-equiv", "failure": f,
+                          "witness": f"pair({render(t1, ids, (0, 0, 1, 0))!r}, {render(t2, ids, (0, 0, 1, 0))!r})",
                           "replay": {"kind": "pair", "t1": tree_json(t1), "t2": tree_json(t2), "ids": ids, "n": 4}})
     return {"evals": evals, "equal": equal, "fails": fails}
 
@@ -546,6 +558,10 @@ def _removal_key(rule, spelling):
     return "remove-genes:symbol-operators" if uses_symbol else "remove-genes"
 
 
+def _removal_witness(rule, removed, rr, as_objects):
+    return f"remove({rule!r}, without={removed}, remove_reactions={rr}, as_objects={as_objects})"
+
+
 def _unit_removal(args):
     _quiet()
     jobs = args
@@ -570,10 +586,55 @@ def _unit_removal(args):
                         one = check_removal([trees[idx]], ids, subset, rr, as_objects, spelling)[1]
                         if one:
                             keep, msg = [trees[idx]], one[0][0]
-                    fails.append({"key": _removal_key(rule, spelling), "failure": msg,
+                    key = _removal_key(rule, spelling)
+                    removed = ",".join(ids[j] for j in subset)
+                    fails.append({"key": key, "failure": msg,
+                                  # class members met in the seeded part are matched by class (protocol); the exact
+                                  # witnesses of the class come from the fixed list below
+                                  "witness": (f"random:{key}" if key in INPUT_CLASS_KEYS
+                                              else _removal_witness(rule, removed, rr, as_objects)),
                                   "replay": {"kind": "removal", "trees": [tree_json(t) for t in keep], "ids": ids,
                                              "subset": subset, "remove_reactions": rr, "as_objects": as_objects,
                                              "spelling": list(spelling), "text": rule}})
+    return {"evals": evals, "fails": fails}
+
+
+# fixed, seed-independent list for the class `remove-genes:symbol-operators`: every tree with <= 3 leaves over a, b, c,
+# typed with symbol operators in four ways, every non-empty subset of its genes removed, both remove_reactions settings
+FIXED_REMOVAL_IDS = ["a", "b", "c", "d"]
+FIXED_REMOVAL_SPELLINGS = [(2, 2, 0, 0), (2, 0, 0, 0), (0, 2, 0, 0), (2, 2, 1, 2)]
+
+
+def fixed_removal_cases():
+    out, seen = [], set()
+    for nl in (1, 2, 3):
+        for t in _trees(nl):
+            genes = sorted(set(_leaves(t)))
+            for sp in FIXED_REMOVAL_SPELLINGS:
+                rule = render(t, FIXED_REMOVAL_IDS, sp)
+                if rule in seen or not ("&" in rule or "|" in rule):
+                    continue
+                seen.add(rule)
+                for mask in range(1, 1 << len(genes)):
+                    subset = [g for k, g in enumerate(genes) if mask >> k & 1]
+                    for rr in (True, False):
+                        out.append((t, sp, subset, rr))
+    return out
+
+
+def _unit_removal_fixed(args):
+    _quiet()
+    lo, hi = args
+    evals = 0
+    fails = []
+    for (t, sp, subset, rr) in fixed_removal_cases()[lo:hi]:
+        n, f = check_removal([t], FIXED_REMOVAL_IDS, subset, rr, rr, sp)
+        evals += n
+        for msg, rule in f:
+            removed = ",".join(FIXED_REMOVAL_IDS[j] for j in subset)
+            fails.append({"key": _removal_key(rule, sp), "witness": _removal_witness(rule, removed, rr, rr), "failure": msg,
+                          "replay": {"kind": "removal", "trees": [tree_json(t)], "ids": FIXED_REMOVAL_IDS, "subset": subset,
+                                     "remove_reactions": rr, "as_objects": rr, "spelling": list(sp), "text": rule}})
     return {"evals": evals, "fails": fails}
 
 
@@ -634,6 +695,8 @@ def run(tier: str, seed: int) -> dict:
             sp = SPELLINGS[(start + a * 7 + seed) % 81]
             rjobs.append((start, pack, off, (start // pack + a) % 4, sp))
     units += [("removal", c) for c in _chunks(rjobs, 1)]
+    n_fixed = len(fixed_removal_cases())
+    units += [("removal_fixed", (lo, min(lo + 60, n_fixed))) for lo in range(0, n_fixed, 60)]
 
     ctx = mp.get_context("fork")
     nproc = min(16, os.cpu_count() or 1)
@@ -642,7 +705,7 @@ def run(tier: str, seed: int) -> dict:
         for kind, r in pool.imap_unordered(_dispatch, [(k, a) for k, a in units], chunksize=1):
             res.append((kind, r))
     counts = {"rule_instances": 0, "rule_texts": 0, "distinct_asts": 0, "rule_evaluations": 0, "pair_comparisons": 0,
-              "pairs_equal": 0, "removal_reaction_checks": 0}
+              "pairs_equal": 0, "removal_reaction_checks": 0, "fixed_removal_reaction_checks": 0}
     fails, samples = [], []
     for kind, r in res:
         fails.extend(r["fails"])
@@ -654,25 +717,34 @@ def run(tier: str, seed: int) -> dict:
         elif kind in ("pairs", "pairs4"):
             counts["pair_comparisons"] += r["evals"]
             counts["pairs_equal"] += r["equal"]
+        elif kind == "removal_fixed":
+            counts["fixed_removal_reaction_checks"] += r["evals"]
         else:
             counts["removal_reaction_checks"] += r["evals"]
     for (nl, ti, off, spid, _fe) in [j for j in jobs if j[0] == 4][:2] + [j for j in jobs if j[0] == 3][:1]:
         tree, ids = _trees(nl)[ti], _alphabet(off)
         sps = SPELLINGS if spid < 0 else THIRDS[spid]
         samples.append({"tree": tree_json(tree), "ids": ids, "text": render(tree, ids, sps[(ti + off) % len(sps)])})
-    # keep the three shortest witnesses per key
-    fails.sort(key=lambda f: (f["key"], len(str(f["replay"].get("text", f["failure"]))), str(f["replay"])))
-    kept, per, texts = [], {}, {}
+    # one failure per distinct witness; the fixed part is reported completely, the seeded part up to SEEDED_CAP per key
+    fails.sort(key=lambda f: (f["key"], f["witness"].startswith("random:"), len(f["witness"]), f["witness"], str(f["replay"])))
+    kept, per, seen, n_seeded = [], {}, set(), {}
+    fixed_w = {_removal_witness(render(t, FIXED_REMOVAL_IDS, sp), ",".join(FIXED_REMOVAL_IDS[j] for j in sub), rr, rr)
+               for (t, sp, sub, rr) in fixed_removal_cases()}
     for f in fails:
         per[f["key"]] = per.get(f["key"], 0) + 1
-        seen = texts.setdefault(f["key"], set())
-        t = str(f["replay"].get("text", f["failure"]))
-        if len(seen) < 3 and t not in seen:          # three witnesses per key, with different rule texts
-            seen.add(t)
-            kept.append(f)
+        if f["witness"] in seen:
+            continue
+        if f["witness"] not in fixed_w:
+            n_seeded[f["key"]] = n_seeded.get(f["key"], 0) + 1
+            if n_seeded[f["key"]] > SEEDED_CAP:
+                continue
+        seen.add(f["witness"])
+        kept.append(f)
     return {
-        "evaluations": counts["rule_evaluations"] + counts["pair_comparisons"] + counts["removal_reaction_checks"],
-        "distinct_nontrivial": counts["rule_texts"] + counts["pair_comparisons"] + counts["removal_reaction_checks"],
+        "evaluations": (counts["rule_evaluations"] + counts["pair_comparisons"] + counts["removal_reaction_checks"]
+                        + counts["fixed_removal_reaction_checks"]),
+        "distinct_nontrivial": (counts["rule_texts"] + counts["pair_comparisons"] + counts["removal_reaction_checks"]
+                                + counts["fixed_removal_reaction_checks"]),
         "rule": "distinct rule texts (tree x alphabet x spelling, deduplicated by text; each evaluated on every knock-out "
                 "subset, round trips once per distinct parsed AST) + ordered rule pairs compared with == + (reaction, removed "
                 "gene set, remove_reactions) triples whose reaction can still be catalysed",
@@ -682,7 +754,8 @@ def run(tier: str, seed: int) -> dict:
                    "spellings": 81, "spellings_per_3or4leaf_instance": 81 if thorough else 27,
                    "all_variants_compared_with_eq": "every instance" if thorough else "every third instance (text round trip: all)",
                    "pair_trees_le3_leaves_3_genes": n_pair_trees, "pairs_4leaf_sampled": n_pairs4,
-                   "removal_alphabets": n_alph_rm, "removal_subsets": 15, "failures_total": len(fails),
+                   "removal_alphabets": n_alph_rm, "removal_subsets": 15, "fixed_removal_cases": n_fixed,
+                   "failures_total": len(fails),
                    "failures_per_key": per, "wall_s": round(time.time() - t0, 1)},
         "counts": counts,
         "exhaustive": True,
@@ -693,7 +766,8 @@ def run(tier: str, seed: int) -> dict:
 
 def _dispatch(ka):
     kind, a = ka
-    fn = {"rules": _unit_rules, "pairs": _unit_pairs, "pairs4": _unit_pairs4, "removal": _unit_removal}[kind]
+    fn = {"rules": _unit_rules, "pairs": _unit_pairs, "pairs4": _unit_pairs4, "removal": _unit_removal,
+          "removal_fixed": _unit_removal_fixed}[kind]
     return kind, fn(a)
 
 
